@@ -435,10 +435,62 @@ func (p *Program) classifyReturn(r *ssa.Return, via *ssa.BasicBlock) retKind {
 	if ei >= len(r.Results) {
 		return retMaybe
 	}
-	v := resolvePhi(r.Results[ei], r.Block(), via)
+	res := effectiveResult(r, ei)
+	v := resolvePhi(res, r.Block(), via)
 	b := r.Block()
-	if v != r.Results[ei] && via != nil {
+	if v != res && via != nil {
 		b = via
 	}
 	return p.classifyErrValue(v, b, 0)
+}
+
+// resultSlot reports whether a is a spill slot for a function result (go/ssa
+// spills results to allocs in functions with defer, and for named results):
+// i.e. a load of it is an operand of a Return.
+func resultSlot(a *ssa.Alloc) bool {
+	for _, u := range usesOf(a) {
+		ld, ok := u.(*ssa.UnOp)
+		if !ok || ld.Op != token.MUL {
+			continue
+		}
+		for _, uu := range usesOf(ld) {
+			if _, ok := uu.(*ssa.Return); ok {
+				return true
+			}
+		}
+	}
+	return false
+}
+
+// effectiveResult returns the value actually returned as result idx: for
+// spilled results, the value of the nearest preceding store to the slot in the
+// return's block (searching predecessors along single-predecessor chains).
+func effectiveResult(r *ssa.Return, idx int) ssa.Value {
+	if idx >= len(r.Results) {
+		return nil
+	}
+	v := r.Results[idx]
+	ld, ok := v.(*ssa.UnOp)
+	if !ok || ld.Op != token.MUL {
+		return v
+	}
+	a, ok := ld.X.(*ssa.Alloc)
+	if !ok {
+		return v
+	}
+	b := r.Block()
+	i := instrIndex(ld)
+	for hops := 0; hops < 4 && b != nil; hops++ {
+		for i--; i >= 0; i-- {
+			if st, ok := b.Instrs[i].(*ssa.Store); ok && st.Addr == ssa.Value(a) {
+				return st.Val
+			}
+		}
+		if len(b.Preds) != 1 {
+			break
+		}
+		b = b.Preds[0]
+		i = len(b.Instrs)
+	}
+	return v
 }
